@@ -304,7 +304,103 @@ def build_tensor(spec, world: World = None):
     paxes = tuple(world.phys(k, n) for k, n in spec["paxes"])
     vaxes = tuple(world.build(e) for e in spec["vaxes"])
     phys = torch.tensor(spec["values"], dtype=torch_dtype(spec["dtype"])).reshape([n for _, n in spec["paxes"]])
+    if spec.get("layout"): phys = layout_physical(phys, spec["layout"])
     return PatternedTensor(phys, paxes, vaxes, spec["default"])
+
+# ---------------------------------------------------------------------------- storage layouts of the physical tensor
+# The property is about the dense tensor a PatternedTensor DENOTES; how torch stores `physical` (strides, storage
+# offset, non-contiguity, stride-0 expansion, overlapping windows) must not matter.  A spec may carry
+#   layout = ["offset", pre, post]          0-dim physical: one cell inside a longer buffer
+#          | ["expanded", dims, off]        stride 0 along `dims` (a torch .expand() view; PARTIAL when dims is a
+#                                           proper subset of the physical dimensions), base at storage offset `off`
+#          | ["permuted", perm]             the memory order of the dimensions is perm (non-contiguous, dense)
+#          | ["strided", dim, step, phase]  every step-th cell of a larger buffer along dim, starting at phase
+#          | ["overlap", a, b]              dimensions a < b have the SAME stride (sliding windows over one buffer:
+#                                           cells with equal index sums along a and b share memory)
+# add_layout() picks one and rewrites spec["values"] into values the layout can hold (constant along expanded
+# dimensions, a function of i_a + i_b for overlapping ones), so that dense_ref / the wire format keep describing
+# the logical contents; layout_physical() builds the view and asserts that it reads back exactly those values.
+def add_layout(spec, rng):
+    sizes = [n for _, n in spec["paxes"]]; nd = len(sizes)
+    vals = list(spec["values"])
+    if math.prod(sizes) == 0: return spec
+    if nd == 0:
+        spec["layout"] = ["offset", rng.randrange(3), rng.randrange(2)]
+        return spec
+    kind = rng.choice(["expanded"] * 5 + ["strided"] * 2 + (["permuted"] * 2 + ["overlap"] * 2 if nd >= 2 else []))
+    idxs = list(itertools.product(*[range(n) for n in sizes]))
+    pos = {ix: i for i, ix in enumerate(idxs)}
+    if kind == "expanded":
+        if nd >= 2 and rng.random() < 0.8: dims = sorted(rng.sample(range(nd), rng.randint(1, nd - 1)))
+        else: dims = list(range(nd))
+        vals = [vals[pos[tuple(0 if d in dims else x for d, x in enumerate(ix))]] for ix in idxs]
+        lay = ["expanded", dims, rng.randrange(3)]
+    elif kind == "strided":
+        lay = ["strided", rng.randrange(nd), rng.choice([2, 3]), rng.randrange(2)]
+    elif kind == "permuted":
+        perm = list(range(nd))
+        while perm == list(range(nd)): rng.shuffle(perm)
+        lay = ["permuted", perm]
+    else:
+        a, b = sorted(rng.sample(range(nd), 2))
+        def rep(ix):
+            s = ix[a] + ix[b]; ia = min(s, sizes[a] - 1)
+            l = list(ix); l[a] = ia; l[b] = s - ia
+            return tuple(l)
+        vals = [vals[pos[rep(ix)]] for ix in idxs]
+        lay = ["overlap", a, b]
+    spec["values"] = vals; spec["layout"] = lay
+    return spec
+
+def layout_kind(spec):
+    lay = spec.get("layout")
+    if not lay: return "contiguous"
+    if lay[0] == "expanded":
+        return "expanded-partial" if len(lay[1]) < len(spec["paxes"]) else "expanded-full"
+    return lay[0]
+
+def layout_physical(phys, lay):
+    """a tensor equal to phys whose storage is laid out as `lay` says (fresh buffers; unused cells hold junk)"""
+    import torch
+    kind = lay[0]; sizes = list(phys.shape); nd = len(sizes)
+    def junk(shape):
+        return torch.full(list(shape), True if phys.dtype == torch.bool else -123.0, dtype=phys.dtype)
+    if kind == "offset":
+        buf = junk([lay[1] + 1 + lay[2]]); buf[lay[1]] = phys
+        out = buf[lay[1]]
+    elif kind == "expanded":
+        base = phys
+        for d in lay[1]: base = base.narrow(d, 0, 1)
+        buf = junk([lay[2] + base.numel()]); buf[lay[2]:] = base.reshape(-1)
+        out = buf[lay[2]:].view(base.shape).expand(sizes)
+    elif kind == "permuted":
+        perm = list(lay[1]); inv = [perm.index(i) for i in range(nd)]
+        out = phys.permute(perm).contiguous().permute(inv)
+    elif kind == "strided":
+        d, step, phase = lay[1], lay[2], lay[3]
+        shape = list(sizes); shape[d] = sizes[d] * step
+        big = junk(shape); ix = (slice(None),) * d + (slice(phase, None, step),)
+        big[ix] = phys; out = big[ix]
+    elif kind == "overlap":
+        a, b = lay[1], lay[2]; na, nb = sizes[a], sizes[b]
+        buf = junk([(na + nb - 1 if d == a else n) for d, n in enumerate(sizes) if d != b])
+        for s in range(na + nb - 1):
+            ia = min(s, na - 1)
+            buf.select(a, s).copy_(phys.select(b, s - ia).select(a, ia))
+        cs = list(buf.stride())
+        out = buf.as_strided(sizes, [cs[a] if d == b else (cs[d] if d < b else cs[d - 1]) for d in range(nd)])
+    else:
+        raise ValueError("unknown layout %r" % (lay,))
+    if not same(out, phys) or list(out.shape) != sizes:
+        raise AssertionError("C06 harness: layout %r cannot hold the values of the spec" % (lay,))
+    return out
+
+def storage_view(t):
+    """(sizes, strides, storage offset, flat storage) of a torch tensor: what the strided-view model of
+    Model/Storage.v reads"""
+    import torch
+    flat = torch.empty(0, dtype=t.dtype).set_(t.untyped_storage())
+    return list(t.shape), list(t.stride()), t.storage_offset(), flat
 
 def dense_ref(spec):
     """the dense tensor a spec denotes, computed from the definition (independent of the library)"""
